@@ -2076,6 +2076,11 @@ func (self *Aof) loadRewriteAofFiles(aofFilenames []string) (*AofFile, []*AofFil
 		lockCommand.DbId = aofLock.DbId
 		lockCommand.LockId = aofLock.LockId
 		lockCommand.LockKey = aofLock.LockKey
+		if aofLock.AofFlag&AOF_FLAG_RCOUNT_IS_PRIORITY != 0 {
+			lockCommand.TimeoutFlag = protocol.TIMEOUT_FLAG_RCOUNT_IS_PRIORITY
+		} else {
+			lockCommand.TimeoutFlag = 0
+		}
 		lockCommand.ExpriedFlag = aofLock.ExpriedFlag
 		lockCommand.Expried = self.GetLockCommandExpriedTime(db, aofLock)
 		lockCommand.Count = aofLock.Count
